@@ -444,6 +444,9 @@ func runC03(c *Ctx) {
 	// "indices are issued without repetition": derive, commit and the commit callback that advances the index happen
 	// under one wallet mutex (C09-R1's rule)
 	c.Borrow(runC09, "C09-R1", "C03-R4", func(k string) bool { return strings.HasPrefix(k, "tx-site-locked") })
+	checkNextIndexBumpedOnItsOwnBranch(c, "C03-R4")
+	// "looked up later": an owned key is found under every form of its address (C16-R2's rule, F45)
+	c.Borrow(runC16, "C16-R2", "C03-R5", func(k string) bool { return strings.HasPrefix(k, "address-key-normalises-pay-to-pubkey") })
 	c.Borrow(func(c2 *Ctx) { checkLockGating(c2, "C03-R3") }, "C03-R3", "C03-R3", func(k string) bool {
 		return strings.HasPrefix(k, "no-private-use-while-locked:") && strings.Contains(k, "Import")
 	})
